@@ -229,9 +229,11 @@ def coversOk (cls : Classes) (text : Bytes) (toks : List Token) (a : AbsTok) : B
 /-! ### Guards of the known deviations (see known_findings.json, property C17)
 
   Each is a decidable predicate on the text and ONE lexer token (the token a semantic token was
-  made from).  Open: `devCrComment` only (the `_partial` theorems assume its negation).  The
-  others name the shapes on which the PINNED tokenizer (HL/Model/SemTokPinned.lean) failed; the
-  defects are repaired, the predicates are kept for the `pinned_*_counterexample` theorems. -/
+  made from).  None is open.  `devCrComment` names the shape the PINNED LEXER
+  (HL/Model/LexerPinned.lean) produced on CRLF lines; the current lexer never produces it on a
+  text of the domain (`HL.Props.C17.lexer_comment_no_cr`).  The others name the shapes on which
+  the PINNED tokenizer (HL/Model/SemTokPinned.lean) failed; the defects are repaired, the
+  predicates are kept for the `pinned_*_counterexample` theorems. -/
 
 /-- `|` reported at the position AFTER the character with an empty extent (the pinned lexer;
     repaired by the `scanPunct` fix — the current lexer never produces this shape). -/
@@ -248,7 +250,8 @@ def devQuoted (t : Token) : Bool := t.ty == .commodity && t.stop.off - t.pos.off
 def devTextTrim (text : Bytes) (t : Token) : Bool :=
   t.ty == .text && (t.val.isEmpty || leadWs (sliceB text t.pos.off t.stop.off) > 0)
 
-/-- A comment on a CRLF line: the value (and so the length) includes the CR.  OPEN. -/
+/-- (repaired, in the lexer) A comment on a CRLF line: the value (and so the length) included
+    the CR. -/
 def devCrComment (t : Token) : Bool := t.ty == .comment && t.val.getLast? == some cr
 
 /-- (repaired) A character outside the BMP earlier on the line: the lexer's column counts it
@@ -282,8 +285,8 @@ def devTagSkippedPart (cls : Classes) (t : Token) : Bool :=
   token values (except a comment's) or the lexer's columns.  `measured` / `measB` / `placed` are
   intermediate notions (the cursor agrees with UTF-16 lengths and LSP characters) which
   HL/Lemmas/SemTokPlace.lean derives from the contract; `inlineB` (every piece ends inside its
-  line) follows from the contract unless a comment's value ends with a CR
-  (HL/Lemmas/SemTokLines.lean) — the open CRLF finding. -/
+  line) follows from the contract and the fact that no comment's value ends with a CR
+  (HL/Lemmas/SemTokLines.lean; for the lexer's output that fact is `lexer_comment_no_cr`). -/
 
 /-- No line feed in `text[a:b)`. -/
 def noLf (text : Bytes) (a b : Nat) : Bool := !(sliceB text a b).contains lf
